@@ -60,10 +60,11 @@ def _template(name, seed):
             'a': dict(tchans=2, t_start=t0),
             'b': dict(tchans=3, t_start=t0 + 311.5),
             'c': dict(tchans=1, t_start=t0 + 702.25, ascending=False, fch1=1006.0),   # same fmin = 1000.0
-            'd': dict(df=4.0, t_start=t0 + 1000.0),
-            'e': dict(dt=2.0, t_start=t0 + 1100.0),
+            # near misses: a guard that compares with a tolerance (np.isclose, rounding) must not let these through
+            'd': dict(df=2.0 + 2e-6, t_start=t0 + 1000.0),
+            'e': dict(dt=1.0 + 1e-7, t_start=t0 + 1100.0),
             'f': dict(fchans=8, t_start=t0 + 1200.0),
-            'g': dict(fch1=1002.0, t_start=t0 + 1300.0),
+            'g': dict(fch1=1000.0 + 1e-3, t_start=t0 + 1300.0),
         }
         kw = dict(base)
         kw.update(spec[name])
@@ -159,6 +160,18 @@ def _exec(w, op):
     """Execute one operation on the real object.  Library exceptions are outcomes, not errors."""
     k = op[0]
     ret = None
+    if k != 'new' and getattr(w, 'cad', None) is not None:
+        # read-then-mutate: the aggregate observers are read BEFORE every mutation too, so that a value memoised on a
+        # read and not invalidated by the mutation is seen as stale by the observers evaluated afterwards
+        for attr in ('tchans', 'obs_range', 'slew_times', 't_start', 'fchans', 'fmin', 'df', 'dt'):
+            try:
+                getattr(w.cad, attr)
+            except Exception:
+                pass
+        try:
+            len(w.cad); list(iter(w.cad))
+        except Exception:
+            pass
     try:
         if k == 'new':
             _construct(w, op)
